@@ -267,6 +267,11 @@ def from_element(el, **inherited_attrib):
         for f in dataclasses.fields(data_type)
         if attrs.get(_attr_name(f.name), "").strip()
     }
+    if data_type is SVGRect and "rx" in args and "ry" in args:
+        # both radii given and one of them zero means square corners; only a
+        # missing radius is copied from the other one (SVGRect.__post_init__)
+        if not (args["rx"] and args["ry"]):
+            args["rx"] = args["ry"] = 0.0
     return data_type(**args)
 
 
